@@ -1221,14 +1221,18 @@ pub fn time_4(hour_value: &Value, minute_value: &Value, second_value: &Value, du
           let nanoseconds = (second.fract() * FeelNumber::nano()).trunc();
           match duration_value {
             Value::DaysAndTimeDuration(duration) => {
-              if let Some(feel_time) = FeelTime::new_hmso_opt(
-                hour.to_u8().unwrap(),
-                minute.to_u8().unwrap(),
-                seconds.to_u8().unwrap(),
-                nanoseconds.to_u64().unwrap(),
-                duration.as_seconds() as i32,
-              ) {
-                return Value::Time(feel_time);
+              // like in time literals, the magnitude of the offset is limited to less than 15 hours
+              let offset = duration.as_seconds();
+              if offset.abs() < 15 * 3_600 {
+                if let Some(feel_time) = FeelTime::new_hmso_opt(
+                  hour.to_u8().unwrap(),
+                  minute.to_u8().unwrap(),
+                  seconds.to_u8().unwrap(),
+                  nanoseconds.to_u64().unwrap(),
+                  offset as i32,
+                ) {
+                  return Value::Time(feel_time);
+                }
               }
             }
             Value::Null(_) => {
